@@ -65,6 +65,25 @@ pub fn run_case(seed: u64, c: &Value) -> Result<(), String> {
             (Err(_), Err(_)) => {}
             _ => return Err(format!("encode depends on the iterator type: slices give {ret}, a filtered iterator gives {}", ret_of(&lazy))),
         }
+        // the same call fed by an iterator that itself uses the one-shot functions while it is being consumed (rows and
+        // columns of a two-dimensional code): the inner calls must not disturb the outer one
+        let nested = guarded!(reed_solomon_simd::encode(
+            k,
+            r,
+            shards.iter().enumerate().map(|(i, s)| {
+                if i >= 1 && s.len() >= 2 && s.len() % 2 == 0 {
+                    let inner = reed_solomon_simd::encode(1, 2, [s]).expect("inner encode");
+                    let back = reed_solomon_simd::decode(1, 2, [(0usize, s); 0], [(1usize, &inner[1])]).expect("inner decode");
+                    assert_eq!(back[&0], *s, "inner round trip");
+                }
+                s
+            })
+        ));
+        match (&one, &nested) {
+            (Ok(a), Ok(b)) if a == b => {}
+            (Err(_), Err(_)) => {}
+            _ => return Err(format!("encode is disturbed by one-shot calls made while its argument is consumed: plain {ret}, nested {}", ret_of(&nested))),
+        }
         if !allowed.contains(&canon(&ret)) {
             return Err(format!("encode returned {ret}, allowed by OneShot.tla: {allowed:?}"));
         }
@@ -142,6 +161,24 @@ pub fn run_case(seed: u64, c: &Value) -> Result<(), String> {
             (Ok(a), Ok(b)) if a == b => {}
             (Err(_), Err(_)) => {}
             _ => return Err(format!("decode depends on the iterator type: vectors give {ret}, a filtered iterator gives {}", ret_of(&lazy))),
+        }
+        let nested = guarded!(reed_solomon_simd::decode(
+            k,
+            r,
+            o_sh.iter().map(|(i, s)| (*i, s)),
+            r_sh.iter().enumerate().map(|(t, (i, s))| {
+                if t >= 1 && s.len() >= 2 && s.len() % 2 == 0 {
+                    let inner = reed_solomon_simd::encode(1, 2, [s]).expect("inner encode");
+                    let back = reed_solomon_simd::decode(1, 2, [(0usize, s); 0], [(0usize, &inner[0])]).expect("inner decode");
+                    assert_eq!(back[&0], *s, "inner round trip");
+                }
+                (*i, s)
+            })
+        ));
+        match (&one, &nested) {
+            (Ok(a), Ok(b)) if a == b => {}
+            (Err(_), Err(_)) => {}
+            _ => return Err(format!("decode is disturbed by one-shot calls made while its arguments are consumed: plain {ret}, nested {}", ret_of(&nested))),
         }
         // streaming twin: decoder for the inferred size, originals then recovery
         let twin = guarded!((|| -> Result<BTreeMap<usize, Vec<u8>>, reed_solomon_simd::Error> {
